@@ -53,6 +53,19 @@ Qed.
 
 (* ---------- process death ---------- *)
 
+Lemma pend_idx_pending : forall s r, pending s = Some r -> pend_idx s = r_snap r.
+Proof.
+  intros s r H. unfold pend_idx, pend_r. unfold pending in *. destruct (rdp s); try discriminate; rewrite H; reflexivity.
+Qed.
+
+(* no pending record: none at all, or the one that the cut inside its hard state's Save has made valid *)
+Lemma pend_idx_none : forall c s hi, VInv c s hi -> pending s = None -> pend_idx s = 0 \/ pend_idx s = newest (segs s).
+Proof.
+  intros c s hi HV H. pose proof (v_rd _ _ _ HV) as V. unfold rd_inv in V. unfold pend_idx, pend_r. unfold pending in *.
+  destruct (rdp s); try (left; reflexivity); try (rewrite H; left; reflexivity).
+  right. simpl. destruct V as [_ [_ [_ [_ [V _]]]]]. symmetry. exact V.
+Qed.
+
 (* what the restart needs of the state right after a process death *)
 Lemma rinv_crashed : forall s ss,
   (forall i, restoring s = Some i -> i = newest ss /\ 0 < i) ->
@@ -72,7 +85,7 @@ Lemma pending_valid_image : forall c s hi r j,
   j = 0%nat /\ rdp s = RdBegun r true true /\ 0 < r_snap r.
 Proof.
   intros c s hi r j HV Pd Hj Hlc. pose proof (v_rd _ _ _ HV) as V. unfold rd_inv, pending in *.
-  destruct (rdp s) as [|r0 sv pb|r0 pb apd|r0 pb idx|r0|r0 fl|r0|r0 k]; try discriminate;
+  destruct (rdp s) as [|r0 sv pb|r0 pb apd|r0 pb idx|r0|r0 fl|r0|r0 k|r0 k cidx]; try discriminate;
     try (destruct (0 <? r_snap r0) eqn:Q; [|discriminate]; injection Pd as <-; apply N.ltb_lt in Q).
   - destruct sv.
     + destruct V as [-> [SF [Pb [W [L1 L2]]]]]. destruct j as [|j']; [auto|].
@@ -116,17 +129,17 @@ Proof.
            destruct (v_unval _ _ _ HV u (Hun u Hu)) as [A|[A|[A A']]].
            ++ left. pose proof (pinv_newest_le_hi _ _ HP). lia.
            ++ right. left. exact A.
-           ++ left. unfold pend_idx in A'. rewrite Pd in A'. lia.
+           ++ left. rewrite (pend_idx_pending _ _ Pd) in A'. lia.
       * (* it is not: the record stays invalid *)
         apply N.leb_gt in Qv.
         exists hi. split; [exact HP0|].
         unfold running. cbn [rc reset_volatile]. apply rinv_crashed.
         -- intros x Hx. rewrite Hnw0. eapply restoring_ok; eauto.
         -- rewrite Hnw0, Hun0. intros u Hu. destruct (unval_weak c s hi HV u Hu) as [A|[A|[[A A']|A]]]; auto.
-           ++ right. right. unfold pend_idx in A'. rewrite Pd in A'. subst u. exact Qv.
+           ++ right. right. rewrite (pend_idx_pending _ _ Pd) in A'. subst u. exact Qv.
            ++ (* not running: nothing is buffered *)
               destruct (running s) eqn:Rn.
-              ** destruct (v_unval _ _ _ HV u Hu) as [B|[B|[B B']]]; auto. right. right. unfold pend_idx in B'. rewrite Pd in B'. subst u. exact Qv.
+              ** destruct (v_unval _ _ _ HV u Hu) as [B|[B|[B B']]]; auto. right. right. rewrite (pend_idx_pending _ _ Pd) in B'. subst u. exact Qv.
               ** destruct HV as [U _]. assert (j = 0%nat) by lia. subst j. rewrite drop_tail_0. auto.
     + (* no incoming snapshot is pending *)
       exists hi. split; [exact HP0|].
@@ -134,11 +147,11 @@ Proof.
       * intros x Hx. rewrite Hnw0. eapply restoring_ok; eauto.
       * rewrite Hnw0, Hun0. intros u Hu.
         destruct (running s) eqn:Rn.
-        -- destruct (v_unval _ _ _ HV u Hu) as [B|[B|[B B']]]; auto. unfold pend_idx in B'. rewrite Pd in B'. lia.
+        -- destruct (v_unval _ _ _ HV u Hu) as [B|[B|[B B']]]; auto. destruct (pend_idx_none c s hi HV Pd) as [Z|Z]; [lia | left; lia].
         -- destruct HV as [U [_ [_ [_ [_ [_ [_ [_ [_ [_ [Hun _]]]]]]]]]]]. assert (j = 0%nat) by lia. subst j. rewrite drop_tail_0.
            destruct (Hun u Hu) as [A|[A|[_ A]]]; auto.
   - (* a prefix of the records of the save in flight reached the file *)
-    destruct (rdp s) as [| | r pb apd | | | | |] eqn:Er; try discriminate. destruct apd; try discriminate.
+    destruct (rdp s) as [| | r pb apd | | | | | |] eqn:Er; try discriminate. destruct apd; try discriminate.
     destruct j; [|discriminate].
     remember (S e') as ex eqn:Eex.
     destruct (Nat.leb ex (length (ready_records r))) eqn:Le; [|discriminate]. injection Im as <-. apply Nat.leb_le in Le.
@@ -175,7 +188,7 @@ Proof.
         destruct (v_unval _ _ _ HV u Hun) as [A|[A|[A A']]].
         -- left. pose proof (pinv_newest_le_hi _ _ HP). lia.
         -- right. left. exact A.
-        -- left. unfold pend_idx, pending in A'. rewrite Er, Qs in A'. lia.
+        -- left. unfold pend_idx, pend_r, pending in A'. rewrite Er, Qs in A'. lia.
     + destruct V as [[F1 F2] [[Uhi [Uw [Uh Uc]]] _]].
       destruct (save_entries_range s r hi Uhi F1) as [Erange Lrange].
       rewrite ready_records_eq, Erange.
@@ -200,7 +213,7 @@ Proof.
       * rewrite newest_app_tail_nomark by (auto; apply pmarkers_ents_state). rewrite app_tail_recs, unvalidated_app by auto.
         unfold rs. rewrite (unvalidated_local _ (local_ents_state _ _ _)), app_nil_r.
         intros u Hu. destruct (v_unval _ _ _ HV u Hu) as [B|[B|[B B']]]; auto.
-        unfold pend_idx, pending in B'. rewrite Er, Qs in B'. lia.
+        unfold pend_idx, pend_r, pending in B'. rewrite Er, Qs in B'. lia.
 Qed.
 
 (* ---------- the restart ---------- *)
